@@ -50,8 +50,9 @@ SN_ALPHA = ['train_nas_only', 'train_net_only', 'train_net_and_nas', 'temperatur
             'temperature=3.0', 'hard=T', 'hard=F', 'fwd_bwd']
 # 'pit-trailing': the same TCN whose output passes through an activation after the last layer (the
 # head is output-connected although it is not the node feeding the output)
+# 'mps-layer-1d': a Conv1d network (MPSConv1d forwards the options on its own)
 MODELS = {'pit': PIT_ALPHA, 'pit-trailing': PIT_ALPHA, 'mps-layer': MPS_ALPHA,
-          'mps-channel': MPS_ALPHA, 'supernet': SN_ALPHA}
+          'mps-channel': MPS_ALPHA, 'mps-layer-1d': MPS_ALPHA, 'supernet': SN_ALPHA}
 
 
 def cases(tier, seed):
@@ -107,10 +108,11 @@ def build_model(kind):
         rng = random.Random(5)
         prog = None
         for _ in range(200):
-            prog = mpslib.gen_mps_program(rng, small=True, max_c=4)
+            prog = mpslib.gen_mps_program(rng, small=True, max_c=4,
+                                          family='1d' if kind.endswith('1d') else '2d')
             if 'add' in prog['features']:
                 break
-        model, nas, xs = mpslib.convert_mps(prog, 2, (2, 4, 8) if kind == 'mps-layer' else (0, 2, 8),
+        model, nas, xs = mpslib.convert_mps(prog, 2, (2, 4, 8) if kind != 'mps-channel' else (0, 2, 8),
                                             (2, 4, 8), per_channel=kind == 'mps-channel',
                                             cost=pc.params_bit, train_mode=True)
         return nas, [mpslib.in_range_inputs(prog, 3, 2)], prog
